@@ -1227,7 +1227,7 @@ BRIDGE_GROUPS = {
     # the IO layer: window arithmetic of `Buffer`, the capacities the constructors allocate, and the decision points of
     # `write_all` / `WriteAll::poll` / `read` / `poll_read` / `recv` (conditions only; FV/BridgeIo.lean)
     "io_send": ["io_write_all_step", "aio_write_all_step", "aio_write_all_flush", "io_capacities", "io_untranslatable_none"],
-    "io_recv": ["io_read_step", "io_make_contiguous", "aio_read_tests", "io_recv_closed", "aio_recv_closed", "io_capacities", "io_untranslatable_none"],
+    "io_recv": ["io_read_step", "io_make_contiguous", "io_skip", "io_advance", "aio_read_tests", "io_recv_closed", "aio_recv_closed", "io_capacities", "io_untranslatable_none"],
 }
 LAYOUT = ["arith", "iter", "vec", "str", "flex", "macro", "guards"]
 EMPLACE = LAYOUT + ["guards_emplace", "flex_fill"]
